@@ -296,6 +296,15 @@ def check_case(case: dict) -> Tuple[Optional[str], List[str], dict]:
                 except Exception:  # noqa
                     same = True
                 if not same:
+                    # a NaN produced *inside* (Decimal('NaN') parsed from the text 'NaN') is unequal to itself: two
+                    # results that print alike and differ only there are the same result
+                    try:
+                        ta, tb = repr(ra), repr(rb)
+                        if ta == tb and ("NaN" in ta or "nan" in ta):
+                            same = True
+                    except Exception:  # noqa
+                        pass
+                if not same:
                     fails.append(f"validators compare equal ({case['how']}) but return different results "
                                  f"({mode}) on {json.dumps(wire.canon_value(ctx, x))[:120]}: "
                                  f"{short(ra)} vs {short(rb)}")
